@@ -1,0 +1,14 @@
+//go:build verif
+
+// Contracts checked by /verif/govc (comment-only file; adds no code).
+
+package envelope
+
+//@ func ValidatePayloadContentType
+//@ props C01 C18
+//@ requires payload != nil
+//@ ensures[C01.payload-type,C18.payload-type] (result == nil) == (payload.ContentType == MediaTypePayloadV1)
+
+//@ func SanitizeTargetArtifact
+//@ props C07 C18
+//@ ensures[C07.payload,C18.payload] result.MediaType == targetArtifact.MediaType && result.Digest == targetArtifact.Digest && result.Size == targetArtifact.Size && result.Annotations == targetArtifact.Annotations && len(result.URLs) == 0 && len(result.Data) == 0 && result.Platform == nil && result.ArtifactType == ""
